@@ -685,10 +685,36 @@ func (g *G) Steps(label string, maxSteps int) []Step {
 			i = a
 		}
 	}
+	// burst: a run of single-element derivations followed by siblings from the run's last node.
+	// Slices grown one element at a time end up with spare capacity (len 3, cap 4), which is the
+	// shape in which aliasing between sibling loggers shows.
+	burstLeft, burstKind, burstNode, sibLeft := 0, "", -2, 0
+	if g.cfg.Tree && n >= 5 && rapid.IntRange(0, 3).Draw(t, label+".burst") == 0 {
+		burstLeft = rapid.IntRange(3, 5).Draw(t, label+".burstlen")
+		burstKind = rapid.SampledFrom([]string{"hook", "with"}).Draw(t, label+".burstkind")
+		if g.cfg.NoHooks {
+			burstKind = "with"
+		}
+		sibLeft = rapid.IntRange(2, 3).Draw(t, label+".sibs")
+	}
 	for i := 0; i < n; i++ {
 		parent := i - 1
 		var from *int
-		if g.cfg.Tree && i > 0 && rapid.IntRange(0, 2).Draw(t, label+".branch") == 0 {
+		forced := ""
+		switch {
+		case burstLeft > 0:
+			burstLeft--
+			forced = burstKind
+			if burstLeft == 0 {
+				burstNode = i
+			}
+		case sibLeft > 0 && burstNode >= 0:
+			sibLeft--
+			forced = burstKind
+			f := burstNode
+			from, parent = &f, f
+		}
+		if forced == "" && g.cfg.Tree && i > 0 && rapid.IntRange(0, 2).Draw(t, label+".branch") == 0 {
 			f := rapid.IntRange(-1, i-1).Draw(t, label+".from")
 			from = &f
 			parent = f
@@ -701,6 +727,9 @@ func (g *G) Steps(label string, maxSteps int) []Step {
 			kinds = append(kinds, "update", "update")
 		}
 		k := rapid.SampledFrom(kinds).Draw(t, label+".sk")
+		if forced != "" {
+			k = forced
+		}
 		st := Step{Kind: k, From: from}
 		switch k {
 		case "with", "update":
@@ -712,6 +741,9 @@ func (g *G) Steps(label string, maxSteps int) []Step {
 			}
 		case "hook":
 			nh := rapid.IntRange(1, 3).Draw(t, label+".nh")
+			if forced != "" {
+				nh = 1
+			}
 			for j := 0; j < nh; j++ {
 				hid++
 				st.Hooks = append(st.Hooks, g.Hook(hid, label+".h"))
